@@ -293,7 +293,17 @@ impl IsSuperSet<Name> for Name {
         }
 
         let mut self_is_super_of = false;
+        let accepts_null = self.names.iter().any(|name| name.is_nullable());
         for name in &other.names {
+            // A nullable is a union with None, members of self may each accept one half of it
+            let name = &if name.is_nullable() && accepts_null {
+                TrueName {
+                    is_nullable: false,
+                    ..name.clone()
+                }
+            } else {
+                name.clone()
+            };
             let is_superset = |s_name: &TrueName| s_name.is_superset_of(name, ctx, pos);
             let any_superset: Vec<_> = self
                 .names
